@@ -81,6 +81,8 @@ pub struct PCfg {
 pub struct PairModel {
     pub thorough: bool,
     pub max_depth: usize,
+    /// arena 0 may be created with 20 MiB (threshold-type coupling through process-wide accounting)
+    pub huge: bool,
 }
 
 thread_local! {
@@ -310,7 +312,7 @@ impl PairModel {
                     None => {
                         en.push(PAct::Create { who, cap: 0 });
                         en.push(PAct::Create { who, cap: 1 });
-                        if who == 0 && slots[j].steps == 0 {
+                        if self.huge && who == 0 && slots[j].steps == 0 {
                             // one arena may be huge (threshold-type coupling through process-wide accounting)
                             en.push(PAct::Create { who, cap: 20 << 20 });
                         }
